@@ -257,7 +257,7 @@ class Check:
         for f in os.listdir(self.replays):       # replays of earlier runs (keep those of a run that may still be active)
             fp = os.path.join(self.replays, f)
             try:
-                if time.time() - os.path.getmtime(fp) > 1800:
+                if time.time() - os.path.getmtime(fp) > 1800 and os.path.abspath(fp) != os.environ.get('VERIF_REPLAY_FILE'):
                     os.remove(fp)
             except OSError:
                 pass
